@@ -516,3 +516,39 @@ where
 		ctx.report(kind, &params(i), &fail)
 	})
 }
+
+/// Like run_enum, but the closure supplies the replay parameters of its failure itself.
+pub fn par_first<F>(ctx: &Ctx, kind: &str, n: usize, f: F) -> Option<String>
+where
+	F: Fn(usize) -> Result<(), (Fail, Value)> + Sync,
+{
+	if ctx.stop.load(Ordering::Relaxed) {
+		return None;
+	}
+	let next = std::sync::atomic::AtomicUsize::new(0);
+	let found: Mutex<Option<(usize, Fail, Value)>> = Mutex::new(None);
+	std::thread::scope(|s| {
+		for _ in 0..WORKERS {
+			s.spawn(|| loop {
+				let i = next.fetch_add(1, Ordering::Relaxed);
+				if i >= n || found.lock().unwrap().is_some() {
+					break;
+				}
+				if let Err((fail, params)) = f(i) {
+					if ctx.is_known(&fail) {
+						continue;
+					}
+					let mut g = found.lock().unwrap();
+					if g.as_ref().map_or(true, |(j, _, _)| i < *j) {
+						*g = Some((i, fail, params));
+					}
+				}
+			});
+		}
+	});
+	let g = found.into_inner().unwrap();
+	g.map(|(_, fail, params)| {
+		ctx.stop.store(true, Ordering::Relaxed);
+		ctx.report(kind, &params, &fail)
+	})
+}
